@@ -99,8 +99,13 @@ def execute(prop, cfg, rep, dump_name, extra_events=None):
     rep.phase("model_check")
     plan = drv.plan_from_states(states)
     jobs = drv.make_jobs(prop, plan, tier(), rnd_every=3 if tier() == "quick" else 1)   # thorough: every scene also under a random kappa
-    with mp.Pool(min(16, len(jobs))) as pool:
-        events = [e for evs in pool.imap_unordered(drv.run_job, jobs, chunksize=1) for e in evs]
+    import concurrent.futures as cf
+
+    try:  # a killed worker (e.g. out of memory) must fail the run, not hang it
+        with cf.ProcessPoolExecutor(max_workers=min(16, len(jobs)), mp_context=mp.get_context("fork")) as pool:
+            events = [e for evs in pool.map(drv.run_job, jobs, chunksize=1) for e in evs]
+    except cf.process.BrokenProcessPool as ex:
+        raise MachineryError(f"a measurement worker died: {ex}") from ex
     rep.phase("measure")
     events.sort(key=lambda e: e["tid"])
     tv = [drv.tv_event(e) for e in events] + list(extra_events or [])
